@@ -503,3 +503,89 @@ func TestVerifC04Exempt(t *testing.T) {
 		st.NonTrivial(mode + fmt.Sprint(dt))
 	})
 }
+
+// Overlapping requests: request A times out while its handler is blocked; later requests B run
+// through the timeout middleware while A's handler is released and keeps writing.  Nothing A
+// writes after its timeout may reach any client: every B sees exactly its own complete result
+// and A's answer stays the timeout result.  (Catches state shared between requests, e.g. a
+// recycled response buffer.)
+func TestVerifC04HTTPOverlap(t *testing.T) {
+	logx.Disable()
+	st := verifkit.New("http-overlap")
+	defer st.Flush()
+	rapid.Check(t, func(t *rapid.T) {
+		st.Eval()
+		dt := time.Duration(rapid.IntRange(5, 30).Draw(t, "dtMs")) * time.Millisecond
+		nA := rapid.IntRange(1, 3).Draw(t, "timedOutRequests")
+		nB := rapid.IntRange(1, 3).Draw(t, "laterRequests")
+		lateChunks := rapid.IntRange(1, 4).Draw(t, "lateChunks")
+		lateStatus := rapid.SampledFrom([]int{0, 202, 500}).Draw(t, "lateStatus")
+		sameInstance := rapid.Bool().Draw(t, "sameMiddlewareInstance")
+		mwA := handler.TimeoutHandler(dt)
+		mwB := handler.TimeoutHandler(3 * time.Second)
+		if sameInstance {
+			mwB = handler.TimeoutHandler(dt * 200)
+		}
+		gateA := make(chan struct{})
+		var aDone sync.WaitGroup
+		hA := mwA(http.HandlerFunc(func(w http.ResponseWriter, r *http.Request) {
+			defer aDone.Done()
+			w.Write([]byte("A-early;"))
+			<-gateA // ignores its context
+			w.Header().Set("X-Late-From-A", "1")
+			if lateStatus != 0 {
+				w.WriteHeader(lateStatus)
+			}
+			for i := 0; i < lateChunks; i++ {
+				w.Write([]byte("LATE-FROM-A;"))
+				runtime.Gosched()
+			}
+		}))
+		var aRecs []*httptest.ResponseRecorder
+		for i := 0; i < nA; i++ {
+			aDone.Add(1)
+			rr := httptest.NewRecorder()
+			hA.ServeHTTP(rr, httptest.NewRequest(http.MethodGet, "/a", nil))
+			if rr.Code != http.StatusServiceUnavailable || rr.Body.String() != "Request Timeout" {
+				close(gateA)
+				t.Fatalf("request A%d with a blocked handler got %d %q, want the timeout result", i, rr.Code, rr.Body.String())
+			}
+			aRecs = append(aRecs, rr)
+		}
+		// B requests run on this goroutine (as the next requests on a busy connection would);
+		// a helper releases A's handlers once the first B is inside its handler
+		bInside := make(chan struct{})
+		gateB := make(chan struct{})
+		var once sync.Once
+		go func() {
+			<-bInside
+			close(gateA)
+			aDone.Wait()
+			close(gateB)
+		}()
+		for i := 0; i < nB; i++ {
+			i := i
+			hB := mwB(http.HandlerFunc(func(w http.ResponseWriter, r *http.Request) {
+				w.Header().Set("X-B", fmt.Sprint(i))
+				w.WriteHeader(201)
+				w.Write([]byte("body-"))
+				once.Do(func() { close(bInside) })
+				<-gateB
+				w.Write([]byte(fmt.Sprintf("of-B%d", i)))
+			}))
+			rr := httptest.NewRecorder()
+			hB.ServeHTTP(rr, httptest.NewRequest(http.MethodGet, "/b", nil))
+			want := fmt.Sprintf("body-of-B%d", i)
+			if rr.Code != 201 || rr.Body.String() != want || rr.Header().Get("X-B") != fmt.Sprint(i) || rr.Header().Get("X-Late-From-A") != "" {
+				t.Fatalf("LATE WRITE REACHED ANOTHER CLIENT: request B%d got %d %v %q, its handler produced 201 X-B=%d %q (A's handler wrote %d late chunks after its timeout; same middleware instance=%v)",
+					i, rr.Code, rr.Header(), rr.Body.String(), i, want, lateChunks, sameInstance)
+			}
+		}
+		for i, rr := range aRecs {
+			if rr.Code != http.StatusServiceUnavailable || rr.Body.String() != "Request Timeout" || rr.Header().Get("X-Late-From-A") != "" {
+				t.Fatalf("request A%d's answer changed after its timeout: %d %v %q", i, rr.Code, rr.Header(), rr.Body.String())
+			}
+		}
+		st.NonTrivial(fmt.Sprintf("dt=%v nA=%d nB=%d late=%d/%d same=%v", dt, nA, nB, lateChunks, lateStatus, sameInstance))
+	})
+}
